@@ -254,6 +254,105 @@ fn replay_stream(args: &[String]) -> i32 {
     if bad { 1 } else { 0 }
 }
 
+/// C14 probe: `encode` -- for a few code pages and string lengths around the 1024-byte internal
+/// buffer, the encoding of a string must be the concatenation of the encodings of its
+/// characters (and must not panic).  A fixed battery, not a search: used to look for a concrete
+/// failing input when the contract of CodePage::encode fails (Verus gives no counterexample).
+fn replay_encode(_args: &[String]) -> i32 {
+    let pages = [1252, 932, 936, 1251, 28597, 10000];
+    let alphabet = ['a', '\u{e9}', '\u{65e5}', '\u{2192}', '\u{416}', '\u{1f600}'];
+    for id in pages {
+        let cp = msi::CodePage::from_id(id).expect("page");
+        for pat in 0..alphabet.len() {
+            for n in (1000usize..1040).chain(2040..2056) {
+                let s: String = (0..n).map(|i| if i % 7 == 3 { alphabet[(pat + i) % alphabet.len()] } else { alphabet[pat] }).collect();
+                let whole = std::panic::catch_unwind(|| cp.encode(&s));
+                let mut parts: Vec<u8> = Vec::new();
+                for c in s.chars() {
+                    let mut b = [0u8; 4];
+                    parts.extend(cp.encode(c.encode_utf8(&mut b)));
+                }
+                match whole {
+                    Err(_) => {
+                        println!("REPLAY family=encode page={id} chars={n} first={:?} verdict=VIOLATED (encode panicked)", alphabet[pat]);
+                        return 1;
+                    }
+                    Ok(w) if w != parts => {
+                        println!("REPLAY family=encode page={id} chars={n} first={:?} verdict=VIOLATED (encode(s) has {} bytes, the concatenation of its characters' encodings {})", alphabet[pat], w.len(), parts.len());
+                        return 1;
+                    }
+                    _ => {}
+                }
+            }
+        }
+    }
+    println!("REPLAY family=encode verdict=ok (battery found no failing input)");
+    0
+}
+
+/// C18 probe: `time` -- a fixed battery of creation times (around 1970, 1601, the last tick,
+/// and outside the window) is set, saved, reopened and read back through the public API.
+/// Expected (from the statement of C18, computed here in i128 nanoseconds, independent of the
+/// library): inside the window the time truncated toward 1970 to 100 ns; outside it the nearest
+/// end of the window; never a panic.
+fn replay_time(_args: &[String]) -> i32 {
+    use std::time::{Duration, SystemTime, UNIX_EPOCH};
+    panic::set_hook(Box::new(|_| {}));
+    const E_TICKS: i128 = 116_444_736_000_000_000; // 1601 -> 1970 in ticks
+    const MAX_TICKS: i128 = u64::MAX as i128;
+    let lo_ns: i128 = -E_TICKS * 100;
+    let hi_ns: i128 = (MAX_TICKS - E_TICKS) * 100;
+    let mut offs: Vec<i128> = vec![0, 1, 99, 100, 101, 999_999_999, 1_000_000_000, 1_234_567_891, -1, -99, -100, -101, -1_000_000_001];
+    for base in [lo_ns, hi_ns] {
+        for d in [-1_000_000_000i128, -101, -100, -1, 0, 1, 99, 100, 101, 1_000_000_000, 86_400_000_000_000] {
+            offs.push(base + d);
+        }
+    }
+    offs.push(hi_ns + 1_000_000_000_000_000_000);
+    for ns in offs {
+        let t = if ns >= 0 {
+            UNIX_EPOCH.checked_add(Duration::new((ns / 1_000_000_000) as u64, (ns % 1_000_000_000) as u32))
+        } else {
+            let m = -ns;
+            UNIX_EPOCH.checked_sub(Duration::new((m / 1_000_000_000) as u64, (m % 1_000_000_000) as u32))
+        };
+        let t: SystemTime = match t { Some(t) => t, None => continue };
+        // expected tick count: truncation toward the Unix epoch, saturating
+        let ticks = if ns >= 0 { E_TICKS + ns / 100 } else { E_TICKS - (-ns) / 100 };
+        let ticks = ticks.clamp(0, MAX_TICKS);
+        let exp_ns = (ticks - E_TICKS) * 100;
+        let r = panic::catch_unwind(move || {
+            let cursor = Cursor::new(Vec::new());
+            let mut package = Package::create(PackageType::Installer, cursor).unwrap();
+            package.summary_info_mut().set_creation_time(t);
+            let cursor = package.into_inner().unwrap();
+            let package = Package::open(cursor).unwrap();
+            package.summary_info().creation_time()
+        });
+        let got = match r {
+            Err(_) => {
+                println!("REPLAY family=time offset_ns={ns} verdict=VIOLATED (panic while setting / saving / reading the creation time)");
+                return 1;
+            }
+            Ok(None) => {
+                println!("REPLAY family=time offset_ns={ns} verdict=VIOLATED (creation time missing after reopen)");
+                return 1;
+            }
+            Ok(Some(g)) => g,
+        };
+        let got_ns: i128 = match got.duration_since(UNIX_EPOCH) {
+            Ok(d) => d.as_nanos() as i128,
+            Err(e) => -(e.duration().as_nanos() as i128),
+        };
+        if got_ns != exp_ns {
+            println!("REPLAY family=time offset_ns={ns} read_back_ns={got_ns} expected_ns={exp_ns} verdict=VIOLATED");
+            return 1;
+        }
+    }
+    println!("REPLAY family=time verdict=ok (battery found no failing input)");
+    0
+}
+
 fn main() {
     let args: Vec<String> = std::env::args().skip(1).collect();
     if args.is_empty() {
@@ -266,6 +365,8 @@ fn main() {
         "logic" => replay_logic(&args[1..]),
         "lang" => replay_lang(&args[1..]),
         "stream" => replay_stream(&args[1..]),
+        "encode" => replay_encode(&args[1..]),
+        "time" => replay_time(&args[1..]),
         _ => 2,
     };
     std::process::exit(rc);
